@@ -1,11 +1,67 @@
+(* C44 - theorems.  `run fx st0 bs` is the model of the endpoint manager after the batches bs; every
+   batch is a list of OnUpdate messages followed by CompleteDeferredWork and comes with its own schedule
+   (which pending entry the range over pendingWlEpUpdates produces next), so "for all bs" quantifies over
+   every history AND every iteration order.  fx = false is the code as pinned, fx = true the code with
+   fixes/C44-shadowed-endpoint-bookkeeping.patch. *)
 From Coq Require Import List NArith Bool Lia.
 Import ListNotations.
-From Verif.C44 Require Import Model Spec.
+From Verif.C44 Require Import Model Spec MapLemmas Proofs.
 Open Scope N_scope.
 
-Lemma asc_irrefl_l : forall a, asc a a = false.
-Proof. intros [[a1 a2] a3]. unfold asc. rewrite !N.eqb_refl. apply N.ltb_irrefl. Qed.
+(* One endpoint per interface (pinned and fixed code, every history, every iteration order): two active
+   endpoints never share an interface name, activeWlIfaceNameToID names exactly the active endpoint of
+   the interface, and the chains found on an interface are the chains of that one endpoint. *)
+Theorem c44_one_endpoint_per_iface :
+  forall fx bs, let s := run fx st0 bs in
+    (forall i j wi wj, dget (act s) i = Some wi -> dget (act s) j = Some wj -> e_if wi = e_if wj -> i = j)
+    /\ (forall n i, iget (o_ids (observe s)) n = Some i <-> exists w, dget (act s) i = Some w /\ e_if w = n)
+    /\ (forall n c, iget (o_tw (observe s)) n = Some c ->
+                    exists i w, iget (o_ids (observe s)) n = Some i /\ dget (act s) i = Some w /\ e_if w = n /\ c = chains_of w).
+Proof. exact one_endpoint_per_iface. Qed.
+Print Assumptions c44_one_endpoint_per_iface.
 
-Theorem c44_asc_irrefl : forall a, asc a a = false.
-Proof. exact asc_irrefl_l. Qed.
-Print Assumptions c44_asc_irrefl.
+(* Routes only for administratively up endpoints (pinned and fixed code): whatever routes an interface has
+   are exactly the addresses of its one active endpoint, and that endpoint is admin up. *)
+Theorem c44_routes_only_admin_up :
+  forall fx bs n r, let s := run fx st0 bs in
+    iget (o_routes (observe s)) n = Some r ->
+    exists i w, iget (o_ids (observe s)) n = Some i /\ dget (act s) i = Some w /\ e_if w = n
+                /\ e_up w = true /\ r = e_ips w /\ r <> [].
+Proof. exact routes_only_admin_up. Qed.
+Print Assumptions c44_routes_only_admin_up.
+
+(* The full statement is FALSE of the code as pinned: there are histories (with iteration orders) after which
+   the oracle of Spec.v rejects what is programmed.
+   (a) the active endpoint of interface 0 moves to interface 1; the shadowed endpoint that still claims
+       interface 0 is not promoted: interface 0 carries nothing.
+   (c) active and shadowed endpoint of interface 0 are removed in one batch; the removal of the active one is
+       processed first and re-queues the shadowed one over its pending removal: it stays programmed. *)
+Definition lo : id := (0, 1, 1).
+Definition hi : id := (1, 1, 2).
+Definition wit_a : list (list op * list nat) :=
+  [([Upd lo (mkEp 0 true 1 [4])], []); ([Upd hi (mkEp 0 true 2 [8])], []); ([Upd lo (mkEp 1 true 3 [12])], [])].
+Definition wit_c : list (list op * list nat) :=
+  [([Upd lo (mkEp 0 true 1 [4])], []); ([Upd hi (mkEp 0 true 2 [8])], []); ([Rem lo; Rem hi], [0%nat; 0%nat])].
+
+Definition final_ok (fx : bool) (bs : list (list op * list nat)) : bool :=
+  let s := run fx st0 bs in
+  match pend s with [] => ok_obs (live_of (concat (map fst bs))) (observe s) | _ => false end.
+
+Theorem c44_preferred_refuted :
+  exists bs, pend (run false st0 bs) = [] /\ final_ok false bs = false.
+Proof. exists wit_a. split; vm_compute; reflexivity. Qed.
+Print Assumptions c44_preferred_refuted.
+
+Theorem c44_no_leftovers_refuted :
+  exists bs, pend (run false st0 bs) = [] /\ live_of (concat (map fst bs)) = []
+             /\ o_tw (observe (run false st0 bs)) <> [] /\ o_routes (observe (run false st0 bs)) <> [].
+Proof. exists wit_c. repeat split; vm_compute; congruence. Qed.
+Print Assumptions c44_no_leftovers_refuted.
+
+(* the same histories on the repaired code *)
+Example wit_a_fixed : final_ok true wit_a = true. Proof. vm_compute. reflexivity. Qed.
+Example wit_c_fixed : final_ok true wit_c = true. Proof. vm_compute. reflexivity. Qed.
+(* order dependence of the pinned code: the other iteration order of (c) is fine *)
+Example wit_c_other_order :
+  final_ok false [([Upd lo (mkEp 0 true 1 [4])], []); ([Upd hi (mkEp 0 true 2 [8])], []); ([Rem lo; Rem hi], [1%nat; 0%nat])] = true.
+Proof. vm_compute. reflexivity. Qed.
